@@ -64,7 +64,8 @@ Print Assumptions C06_a_cycle_between_callers.
 
 (* ---- PRIMARY GC cycles as THREADS: the location protocol (ConcGC.v).  Abstract keys, values and locations; a location is written once at
    the frontier and later only marked dead.  Callers: Get looks the key up, reads the location later and, when the record there is not
-   usable, asks the index again (it removes the entry only if the index still has that location - shown unreachable); Put and Remove hold
+   usable, asks the index again (it removes the entry only if the index still has that location - shown unreachable); a dead location keeps
+   what it held and may still be served from the primary's write pool ([AGet k true]), in which case the reader answers what it looked up; Put and Remove hold
    the key lock, publish by insert / compare-and-swap / compare-and-remove, and when the swap fails free the record they wrote and start
    over.  Collectors ([APgc n reloc]): take ANY prefix of the freelist, mark its entries dead one per step, copy ANY candidate records to
    fresh locations and re-point their keys by compare-and-swap, freeing the old location on success and the copy on failure.
@@ -89,10 +90,18 @@ Print Assumptions C06_tagged_runs_keep_the_invariant.
 (* non-vacuity, and the two schedules on which the real code failed before its repairs (ca4bd7c, 3cdde23) *)
 Theorem C06_reader_across_overwrite_and_gc :
   let '(s0, m0) := run_calls aempty (fun _ => None) [APut 7 10] in
-  let '(s', m', ps) := aexec (s0, m0, map AStart [AGet 7; APut 7 11; APgc 5 []]) [0; 1; 1; 1; 1; 2; 2; 2; 0; 0; 0]%nat in
-  ps = [ADone (AVal (Some 11)) (AVal (Some 11)); ADone AOk AOk; AGcRel []] /\ aget 0 (apri s') = Some ADead.
+  let '(s', m', ps) := aexec (s0, m0, map AStart [AGet 7 false; APut 7 11; APgc 5 []]) [0; 1; 1; 1; 1; 2; 2; 2; 0; 0; 0]%nat in
+  ps = [ADone (AVal (Some 11)) (AVal (Some 11)); ADone AOk AOk; AGcRel []] /\ aget 0 (apri s') = Some (ADead 7 10).
 Proof. exact reader_across_overwrite_and_gc. Qed.
 Print Assumptions C06_reader_across_overwrite_and_gc.
+(* ... and when the primary still serves the dead record from its write pool (the last flushed batch stays readable): the parked reader
+   answers the value it had looked up - its linearization point precedes the overwrite.  Both answers occur on the real store. *)
+Theorem C06_reader_served_from_the_write_pool :
+  let '(s0, m0) := run_calls aempty (fun _ => None) [APut 7 10] in
+  let '(s', m', ps) := aexec (s0, m0, map AStart [AGet 7 true; APut 7 11; APgc 5 []]) [0; 1; 1; 1; 1; 2; 2; 2; 0; 0; 0]%nat in
+  ps = [ADone (AVal (Some 10)) (AVal (Some 10)); ADone AOk AOk; AGcRel []] /\ m' 7 = Some 11.
+Proof. exact reader_served_from_the_write_pool. Qed.
+Print Assumptions C06_reader_served_from_the_write_pool.
 Theorem C06_writer_across_relocation :
   let '(s0, m0) := run_calls aempty (fun _ => None) [APut 7 10] in
   let '(s', m', ps) := aexec (s0, m0, map AStart [APut 7 11; APgc 0 [0]]) [0; 0; 0; 1; 1; 1; 1; 0; 0; 0; 0; 0; 1]%nat in
